@@ -34,24 +34,57 @@ class DtsAccessor:
         xarray_obj : xarray.Dataset
             The xarray object to be used for DTS calibration.
         """
-        # cache xarray_obj
+        # xarray keeps one accessor per Dataset object. The aliases below are
+        # therefore read from the object at the time of use: variables that
+        # were replaced after the accessor was created (ds["st"] = ...) must
+        # not be served from a copy taken at creation.
         self._obj = xarray_obj
-        self.attrs = xarray_obj.attrs
 
-        # alias commonly used variables
-        self.x = xarray_obj.x
-        self.nx = self.x.size
-        self.time = xarray_obj.time
-        self.nt = self.time.size
+    @property
+    def attrs(self):
+        return self._obj.attrs
 
-        # None if doesn't exist
-        self.st = xarray_obj.get("st")
-        self.ast = xarray_obj.get("ast")
-        self.rst = xarray_obj.get("rst")
-        self.rast = xarray_obj.get("rast")
+    # alias commonly used variables
+    @property
+    def x(self):
+        return self._obj.x
 
-        self.acquisitiontime_fw = xarray_obj.get("userAcquisitionTimeFW")
-        self.acquisitiontime_bw = xarray_obj.get("userAcquisitionTimeBW")
+    @property
+    def nx(self):
+        return self.x.size
+
+    @property
+    def time(self):
+        return self._obj.time
+
+    @property
+    def nt(self):
+        return self.time.size
+
+    # None if doesn't exist
+    @property
+    def st(self):
+        return self._obj.get("st")
+
+    @property
+    def ast(self):
+        return self._obj.get("ast")
+
+    @property
+    def rst(self):
+        return self._obj.get("rst")
+
+    @property
+    def rast(self):
+        return self._obj.get("rast")
+
+    @property
+    def acquisitiontime_fw(self):
+        return self._obj.get("userAcquisitionTimeFW")
+
+    @property
+    def acquisitiontime_bw(self):
+        return self._obj.get("userAcquisitionTimeBW")
 
     def __repr__(self):
         """Return a string representation of the DtsAccessor object."""
